@@ -995,7 +995,20 @@ func genStore(c *Ctx, profile string) {
 				switch m := c.Rng.Intn(8); {
 				case m < 2 && len(g.dss) > 1:
 					i := c.Rng.Intn(len(g.dss))
+					// a paged relationship query scoped to the dataset is started before the delete and continued after it
+					// (the continuation carries the dataset's internal id, the name no longer resolves)
+					lbl := ""
+					inv := c.Rng.Intn(3) == 0
+					if c.Rng.Intn(2) == 0 {
+						lbl = fmt.Sprintf("del%d", len(ops))
+						ops = append(ops, M{"op": "q", "q": "related", "start": g.ids[c.Rng.Intn(len(g.ids))], "pred": "*", "inverse": inv,
+							"scope": []string{g.dss[i]}, "limit": 1, "save": lbl})
+					}
 					ops = append(ops, M{"op": "deleteDs", "name": g.dss[i]})
+					if lbl != "" {
+						ops = append(ops, M{"op": "q", "q": "related", "cont": lbl, "inverse": inv, "limit": 1, "save": lbl},
+							M{"op": "q", "q": "related", "cont": lbl, "inverse": inv, "limit": 2, "save": lbl})
+					}
 					gone := g.dss[i]
 					g.dss = append(g.dss[:i:i], g.dss[i+1:]...)
 					// what typically follows a delete: a restart, garbage collection, the name being reused
